@@ -107,7 +107,13 @@ theorem keys_projRows (src dst : List Col) (rows : List (Int × Row)) :
 
 /-! ### tables -/
 
-theorem mergeTable_base_ours (c : Bool) (b x : Option Table) (hx : ∀ t, x = some t → t.WF) :
+/-- the column list `x` is `b`'s surviving columns (in `b`'s order) followed by `x`'s new columns —
+what a schema merge that can only append produces from them -/
+def ColsAppend (b x : List Col) : Prop :=
+  b.filter (fun c => x.contains c) ++ x.filter (fun c => !(b.contains c)) = x
+
+theorem mergeTable_base_ours (c : Bool) (b x : Option Table) (hx : ∀ t, x = some t → t.WF)
+    (hcols : c = true → ∀ bt xt, b = some bt → x = some xt → ColsAppend bt.cols xt.cols) :
     mergeTable c b b x = .ok x := by
   cases b with
   | none => cases x <;> rfl
@@ -125,6 +131,9 @@ theorem mergeTable_base_ours (c : Bool) (b x : Option Table) (hx : ∀ t, x = so
         | false => simp
         | true =>
           simp only [Bool.not_true, Bool.false_and, if_false, mergeCols, if_true]
+          have hca : bt.cols.filter (fun c => tt.cols.contains c) ++ tt.cols.filter (fun c => !(bt.cols.contains c)) = tt.cols :=
+            hcols rfl bt tt rfl rfl
+          rw [hca]
           have hk : Sorted ltInt (keys (projRows tt.cols tt.cols tt.rows)) := by
             rw [keys_projRows]; exact hwf.1
           rw [mergeRows_base_ours _ _ hk, projRows_self tt hwf]
@@ -145,12 +154,14 @@ theorem mergeTable_base_theirs (c : Bool) (b x : Option Table) : mergeTable c b 
 /-! ### roots -/
 
 theorem mergeRootsOn_base_ours (c : Bool) (names : List String) (b x : Root)
-    (hx : ∀ n t, get x n = some t → t.WF) :
+    (hx : ∀ n t, get x n = some t → t.WF)
+    (hcols : c = true → ∀ n bt xt, get b n = some bt → get x n = some xt → ColsAppend bt.cols xt.cols) :
     mergeRootsOn c names b b x = .ok (names.filterMap (fun n => (get x n).map (fun v => (n, v)))) := by
   induction names with
   | nil => rfl
   | cons n rest ih =>
-    simp only [mergeRootsOn, mergeTable_base_ours c (get b n) (get x n) (fun t h => hx n t h), ih,
+    simp only [mergeRootsOn, mergeTable_base_ours c (get b n) (get x n) (fun t h => hx n t h)
+      (fun hc bt xt h1 h2 => hcols hc n bt xt h1 h2), ih,
       List.filterMap_cons]
     cases get x n <;> rfl
 
@@ -163,9 +174,11 @@ theorem mergeRootsOn_base_theirs (c : Bool) (names : List String) (b x : Root) :
     cases get x n <;> rfl
 
 /-- ours = base: the merge is theirs. -/
-theorem merge3_base_ours (c : Bool) (b x : Root) (hx : RootWF x) : merge3 c b b x = .ok x := by
+theorem merge3_base_ours (c : Bool) (b x : Root) (hx : RootWF x)
+    (hcols : c = true → ∀ n bt xt, get b n = some bt → get x n = some xt → ColsAppend bt.cols xt.cols) :
+    merge3 c b b x = .ok x := by
   unfold merge3
-  rw [mergeRootsOn_base_ours c _ b x hx.2]
+  rw [mergeRootsOn_base_ours c _ b x hx.2 hcols]
   congr 1
   apply filterMap_get_eq strictTotal_ltStr _ (sorted_unionKeys strictTotal_ltStr _ _) x hx.1
   intro k hk
